@@ -42,6 +42,13 @@ var c15Rules = []string{
 	"~example.com##.g2", // same selector as the other generic rule, different exclusion
 	`##a[href$="#@#"]`,  // marker-like sequences inside a selector
 	`example.org##a[onclick*="#$#"]`,
+	"## .sp", // a blank after the marker is not part of the selector
+}
+
+func init() {
+	// two different rule texts with equal 32-bit hashes
+	a, b := enum.CollidingTexts("##.k", 3, "")
+	c15Rules = append(c15Rules, a, b)
 }
 
 var c15Hosts = []string{"example.org", "sub.example.org", "a.sub.example.org", "example.com", "notexample.org", "other.net", "google.com", "www.google.co.uk", "x.google.agoogle.com", "my_app.example.org", "1.2.3.4"}
@@ -107,7 +114,7 @@ func c15ParseWritten(line string) c15Written {
 	default:
 		panic(HarnessError("no element-hiding marker in " + line))
 	}
-	w.selector = line[i+n:]
+	w.selector = strings.TrimSpace(line[i+n:])
 	if i > 0 {
 		for _, d := range strings.Split(line[:i], ",") {
 			if strings.HasPrefix(d, "~") {
